@@ -8,12 +8,15 @@
 #include "tree.h"
 
 static const char *UNI[T_MAXU] = { "10-a.conf", "9-b.conf", "B.conf", "README", "a.conf", ".h.conf", ".conf", "x.conf.bak" };
-static const char *EPN[11] = { "econf_readFileWithCallback", "econf_readConfigWithCallback", "econf_readDirsWithCallback", "econf_readDirsHistoryWithCallback",
+static const char *EPN[13] = { "econf_readFileWithCallback", "econf_readConfigWithCallback", "econf_readDirsWithCallback", "econf_readDirsHistoryWithCallback",
                               "econf_readConfigWithCallback + CONFIG_DIRS option", "econf_readConfigWithCallback, drop-ins only (config name NULL)",
                               "econf_readFileWithCallback, relative file name", "econf_readDirsWithCallback, relative directories", "econf_readDirsHistoryWithCallback, relative directories",
                               "econf_readDirsWithCallback, the callback itself reads a layered configuration before it answers",
-                              "econf_readDirsHistoryWithCallback, the callback itself reads a layered configuration before it answers" };
-#define NEP 11
+                              "econf_readDirsHistoryWithCallback, the callback itself reads a layered configuration before it answers",
+                              "econf_readDirsWithCallback while owner, group, no-symlink and permission requirements are in force that every file satisfies",
+                              "econf_readDirsHistoryWithCallback while owner, group, no-symlink and permission requirements are in force that every file satisfies" };
+#define NEP 13
+#define IS_HIST(t) ((t) == 3 || (t) == 8 || (t) == 10 || (t) == 12)
 static int reentrant;          /* the callback consults its own policy files through the library (same thread, nested call) */
 static char pol0[400], pol1[400];
 static const char *rel0, *rel1;   /* relative spellings of the two directories / the single file */
@@ -25,7 +28,7 @@ static int rej1, rej2;             /* 0 = none, i = the i-th callback call (1-ba
 
 static void setup(int ep)
 {
-  reentrant = ep >= 9;
+  reentrant = ep == 9 || ep == 10;
   if (reentrant) {
     char cmd[1200]; snprintf(pol0, sizeof pol0, "%s/policy/usr", mc_work); snprintf(pol1, sizeof pol1, "%s/policy/etc", mc_work);
     snprintf(cmd, sizeof cmd, "mkdir -p %s/policy.conf.d %s/policy.conf.d", pol0, pol1); if (system(cmd) != 0) mc_die("mkdir");
@@ -132,6 +135,8 @@ static void exec(void)
   t_cblog_reset(&ctx.log); ctx.ntouched = 0; ctx.first_reject = 0;
   econf_file *kf = SENT_KF, *own = NULL; econf_file **hist = SENT_HIST; size_t hsize = 777;
   econf_err rc;
+  /* the library's own admission rules, all satisfied: the caller's check is asked all the same */
+  if (mc_tag >= 11) { econf_requireOwner(getuid()); econf_requireGroup(getgid()); econf_followSymlinks(false); econf_requirePermissions(0400, 0700); }
   switch (mc_tag) {
   case 0: rc = econf_readFileWithCallback(&kf, t_path[0], "=", "#", cb, &ctx); break;
   case 6: rc = econf_readFileWithCallback(&kf, rel0, "=", "#", cb, &ctx); break;
@@ -142,10 +147,11 @@ static void exec(void)
     if (rc != ECONF_SUCCESS) { mc_fail(sig.s, "options rejected: %d", (int)rc); goto out; }
     kf = own;
     rc = econf_readConfigWithCallback(&kf, "proj", "/usr/lib", mc_tag == 5 ? NULL : "cfg", "conf", "=", "#", cb, &ctx); break;
-  case 2: case 9: rc = econf_readDirsWithCallback(&kf, ts.layer_dir[0], ts.layer_dir[1], "cfg", "conf", "=", "#", cb, &ctx); break;
+  case 2: case 9: case 11: rc = econf_readDirsWithCallback(&kf, ts.layer_dir[0], ts.layer_dir[1], "cfg", "conf", "=", "#", cb, &ctx); break;
   default: rc = econf_readDirsHistoryWithCallback(&hist, &hsize, ts.layer_dir[0], ts.layer_dir[1], "cfg", "conf", "=", "#", cb, &ctx); break;
   }
   mc_st->libcalls++;
+  if (mc_tag >= 11) econf_reset_security_settings();
   mc_log("rc=%d (%s), %d callback calls, first rejection at call %d\n", (int)rc, econf_errString(rc), ctx.log.n, ctx.first_reject);
   /* (2) the callback saw the reference processing list, in order, with exact paths, up to the first rejection */
   {
@@ -158,7 +164,7 @@ static void exec(void)
   if (ctx.first_reject) {
     /* (4) */
     if (rc != ECONF_PARSING_CALLBACK_FAILED) mc_fail(sig.s, "callback rejected call %d but the read returned %d (%s); %s", ctx.first_reject, (int)rc, econf_errString(rc), sig.s);
-    if ((mc_tag == 3 || mc_tag == 8 || mc_tag == 10)) {
+    if (IS_HIST(mc_tag)) {
       if (hist != NULL && hist != SENT_HIST) mc_fail(sig.s, "a history was handed back although the callback rejected a file; %s", sig.s);
     } else if (kf != NULL && kf != SENT_KF) {
       obs_cfg o; sbuf err = {0};
@@ -170,7 +176,7 @@ static void exec(void)
     if (rc != ECONF_NOFILE) mc_fail(sig.s, "no file, rc=%d; %s", (int)rc, sig.s);
   } else if (rc != ECONF_SUCCESS) {
     mc_fail(sig.s, "all files accepted but the read failed with %d (%s); %s", (int)rc, econf_errString(rc), sig.s);
-  } else if ((mc_tag == 3 || mc_tag == 8 || mc_tag == 10)) {
+  } else if (IS_HIST(mc_tag)) {
     /* (1)+(3)+(5) per history member */
     if (hsize != (size_t)nlist) mc_fail(sig.s, "history has %zu members, %d files were consulted; %s", hsize, nlist, sig.s);
     for (size_t i = 0; i < hsize && hist && hist != SENT_HIST; i++) {
@@ -213,7 +219,7 @@ static void exec(void)
     sb_free(&err); obs_free(&o);
   }
   /* release */
-  if ((mc_tag == 3 || mc_tag == 8 || mc_tag == 10)) {
+  if (IS_HIST(mc_tag)) {
     if (hist && hist != SENT_HIST) { for (size_t i = 0; i < hsize; i++) econf_freeFile(hist[i]); free(hist); }
   } else if (kf && kf != SENT_KF) econf_freeFile(kf);
 out:
